@@ -4,7 +4,7 @@ import json, os, subprocess
 HERE = os.path.dirname(os.path.dirname(os.path.abspath(__file__)))
 hook_commits = [l.split()[0] for l in subprocess.run(
     ["git", "-C", "/repo", "log", "--format=%h %s"], capture_output=True, text=True).stdout.splitlines()
-    if l.split(" ", 1)[1].startswith("verif hooks")]
+    if l.split(" ", 1)[1].startswith("verif hook")]
 
 CHECKS = {
  # id: (built, engine, category, level text, level note, technique, design_ref)
@@ -49,7 +49,7 @@ CHECKS = {
    "one data set; sort keys must be selected; ambiguous references (ties at a leaf limit) are skipped",
    "bounded-exhaustive enumeration of query trees / select / sort / paging inputs vs reference evaluation", "DESIGN.md §4 C06"),
  "C08": (True, "seqx", "model_checking",
-   "Every write history up to depth 3 (thorough 4) over a 13-symbol alphabet (three batches meet an injected storage error after the index work) on a nine-index schema, with and without a learned binary quantiser, executed in lock-step on five instances (bbolt with unlimited / 1-byte / disabled shared cache, bbolt reopened with a fresh cache manager after every batch, memstore); after every batch each instance must answer the complete battery exactly like the reference model (so warm, evicted, disabled, cold and in-memory answers coincide) and the reopened file's buckets must be byte-identical before close, after reopen and after querying.",
+   "Every write history up to depth 3 (thorough 4) over a 13-symbol alphabet (three batches meet an injected storage error after the index work) on a nine-index schema, with and without a learned binary quantiser, executed in lock-step on six instances (bbolt with unlimited / 1-byte / disabled shared cache, bbolt reopened with a fresh cache manager after every batch, memstore with unlimited and with disabled cache); after every batch each instance must answer the complete battery exactly like the reference model (so warm, evicted, disabled, cold and in-memory answers coincide) and the reopened file's buckets must be byte-identical before close, after reopen and after querying.",
    "approximate graph answers outside the exact regimes are not compared across instances; fsync/commit of bbolt trusted; rejected batches are not applied to memstore (as the property scopes it)",
    "exhaustive enumeration of write histories in lock-step over five configurations of the real code (differential + reference model)", "DESIGN.md §4 C08"),
  "C11": (True, "schedx", "model_checking",
